@@ -71,23 +71,34 @@ type End struct {
 	// receive-side quiet periods: the longest time without new data reaching this end (from OpenedAt on)
 	LastRecvAt time.Time
 	MaxRecvGap time.Duration
+	// quietFrom: since when this end has had nothing to read (set when a Read empties the receive buffer); a period
+	// without arrivals only counts as quiet while the buffer is empty - data that waits unread is not silence
+	quietFrom time.Time
 }
 
 // QuietFor is the longest period during which no new data reached this end, counting the period that is still open.
 func (e *End) QuietFor() time.Duration {
 	e.n.mu.Lock()
 	defer e.n.mu.Unlock()
-	last := e.LastRecvAt
-	if last.IsZero() {
-		last = e.OpenedAt
-	}
 	g := e.MaxRecvGap
-	if !e.reof && e.rerr == nil {
-		if cur := time.Since(last); cur > g {
+	if !e.reof && e.rerr == nil && len(e.rbuf) == 0 {
+		if cur := time.Since(e.quietStartLocked()); cur > g {
 			g = cur
 		}
 	}
 	return g
+}
+
+// quietStartLocked: the start of the current quiet period of an end whose receive buffer is empty.
+func (e *End) quietStartLocked() time.Time {
+	last := e.LastRecvAt
+	if last.IsZero() {
+		last = e.OpenedAt
+	}
+	if e.quietFrom.After(last) {
+		last = e.quietFrom
+	}
+	return last
 }
 
 type Server interface {
@@ -432,12 +443,8 @@ func (e *End) deliver(label string) {
 		e.outq = e.outq[1:]
 		if !p.closed && p.rerr == nil {
 			p.reof = true
-			{
-				last := p.LastRecvAt
-				if last.IsZero() {
-					last = p.OpenedAt
-				}
-				if g := time.Since(last); g > p.MaxRecvGap {
+			if len(p.rbuf) == 0 {
+				if g := time.Since(p.quietStartLocked()); g > p.MaxRecvGap {
 					p.MaxRecvGap = g
 				}
 			}
@@ -472,15 +479,13 @@ func (e *End) deliver(label string) {
 		case p.rclosed:
 			// shutdown(SHUT_RD): silently discarded
 		default:
+			if len(p.rbuf) == 0 {
+				if g := time.Since(p.quietStartLocked()); g > p.MaxRecvGap {
+					p.MaxRecvGap = g
+				}
+			}
 			p.rbuf = append(p.rbuf, data...)
 			p.BytesIn += len(data)
-			last := p.LastRecvAt
-			if last.IsZero() {
-				last = p.OpenedAt
-			}
-			if g := time.Since(last); g > p.MaxRecvGap {
-				p.MaxRecvGap = g
-			}
 			p.LastRecvAt = time.Now()
 			p.wakeR()
 			cbData = true
@@ -534,11 +539,18 @@ func (e *End) Read(p []byte) (int, error) {
 		case e.closed:
 			n.mu.Unlock()
 			return 0, opErr("read", e, net.ErrClosed)
+		case !e.rdl.IsZero() && !time.Now().Before(e.rdl):
+			// a deadline that has passed fails the call before anything is read, also when data is waiting
+			// (netpoll checks the deadline first)
+			n.mu.Unlock()
+			n.rt.Probe("net.read-deadline")
+			return 0, opErr("read", e, os.ErrDeadlineExceeded)
 		case len(e.rbuf) > 0 && !e.rclosed:
 			k := copy(p, e.rbuf)
 			e.rbuf = e.rbuf[k:]
 			if len(e.rbuf) == 0 {
 				e.rbuf = nil
+				e.quietFrom = time.Now()
 			}
 			e.peer.wakeW()
 			n.mu.Unlock()
@@ -590,6 +602,11 @@ func (e *End) Write(p []byte) (int, error) {
 		case e.rerr != nil:
 			n.mu.Unlock()
 			return 0, opErr("write", e, os.NewSyscallError("write", syscall.ECONNRESET))
+		}
+		if !e.wdl.IsZero() && !time.Now().Before(e.wdl) {
+			// as for reads: a write deadline that has passed fails the call before anything is written
+			n.mu.Unlock()
+			return 0, opErr("write", e, os.ErrDeadlineExceeded)
 		}
 		if n.BufCap > 0 && e.outBytes+len(e.peer.rbuf) >= n.BufCap && len(p) > 0 {
 			now := time.Now()
